@@ -232,6 +232,8 @@ def run_tempo(p, start, tau):
                         initial_state=o.up, start_time=start)
     log.clear()
     with QuadPatch(log):
+        for m in p.get("history", []):           # earlier compute() calls on the same object
+            tempo.compute(start + m * p["dt"], progress_type="silent")
         dyn = tempo.compute(end_of(start, p), progress_type="silent")
     return {"times": [float(t) for t in dyn.times], "values": {"states": np.array(dyn.states)},
             "log": log.entries}
@@ -252,6 +254,8 @@ def run_mft(p, start, tau):
                                start_time=start, parameters=params)
     log.clear()
     with QuadPatch(log):
+        for m in p.get("history", []):
+            mft.compute(start + m * p["dt"], progress_type="silent")
         dyn = mft.compute(end_of(start, p), progress_type="silent")
     return {"times": [float(t) for t in dyn.times],
             "values": {"fields": np.array(dyn.fields),
@@ -541,7 +545,30 @@ def gen_cases(rng, tier):
     cases += far_cases(rng, 1 if tier == "quick" else 3)
     cases += guess_cases(rng, tier)
     cases += pulsed_cases(rng, tier)
+    cases += history_cases(rng, tier)
     return cases
+
+
+HISTORY_SHIFTS = [-0.3, -1.0, -2.5, 0.45, -0.25, 1.7]
+
+
+def history_cases(rng, tier):
+    """compute(t1); compute(t2) [; compute(t3)] on ONE Tempo / MeanFieldTempo object: the history
+    must not depend on the origin (negative shifts make the current time smaller than the elapsed
+    time, positive ones larger)"""
+    out = []
+    for api in ("tempo", "mft"):
+        taus = [rng.choice(HISTORY_SHIFTS[:3]), rng.choice(HISTORY_SHIFTS[3:])] \
+            if tier == "quick" else HISTORY_SHIFTS
+        for tau in taus:
+            n1 = rng.choice([2, 3, 4])
+            n2 = rng.choice([1, 2, 3])
+            hist = [n1] if rng.random() < 0.7 else [n1, n1, n1 + n2]
+            n = hist[-1] + (n2 if len(hist) == 1 else rng.choice([0, 1]))
+            p = {"dt": 0.1, "n": n, "subdiv": None, "frac": rng.choice([0.0, 0.0, 0.3]),
+                 "history": hist}
+            out.append((api, p, rng.choice([0.0, 0.0, 0.5]), tau))
+    return out
 
 
 PULSE_SHIFTS = [0.45, 0.5, 2.55, -1.7]
@@ -1079,6 +1106,7 @@ def correspondence(res, tier, rng):
             else ",not-multiple-of-dt")
         res.count("run:%s%s" % (api, ":typed-callables" if p.get("typed") is not None else
                                 ":pulses-between-integers" if p.get("pulsed") is not None else
+                                ":compute-history" if p.get("history") else
                                 ":far-origin" if abs(tau) >= 1000 else ""))
         res.count("shift:" + kind)
         res.count("subdiv:%s" % ("None" if p.get("subdiv", 256) is None else "quad_vec"))
@@ -1149,6 +1177,10 @@ def search(res, rng=None):
             fixed.insert(0, (api, {"dt": 0.1, "n": int(round((c + 0.5) / 0.1)), "subdiv": None,
                                    "frac": 0.0, "pulsed": (c, 0.07), "record_all": True,
                                    "controls": [], "step_controls": [], "real_pt": False}, 0.0, tau))
+    for api in ("tempo", "mft"):
+        for tau in (-0.3, -1.0, -2.5, 0.45):
+            fixed.insert(0, (api, {"dt": 0.1, "n": 7, "subdiv": None, "frac": 0.0, "history": [4]},
+                             0.0, tau))
     for tau in (4.5, -2.6, 2.6):
         fixed.insert(0, ("guess_tempo_parameters", {"pulse": 1.0, "duration": 3.0, "tolerance": 5.0e-2},
                          0.0, tau))
@@ -1206,6 +1238,9 @@ def run(tier, seed, replay):
         "pulses-between-integers: rates and Lindblad operators that are short pulses (centre 0.5 / "
         "1.5, width 0.05-0.1) equal at all integer times, shifts 0.45, 0.5, 2.55 (pulse onto an "
         "integer) and -1.7.  "
+        "compute-history: compute(t1); compute(t2)[; compute(t3)] on one Tempo / MeanFieldTempo "
+        "object, shifts -0.3, -1.0, -2.5, -0.25, 0.45, 1.7: number of reported times, labels minus "
+        "tau, states.  "
         "estimated parameters: guess_tempo_parameters(system=...) and tempo_compute(parameters=None) "
         "for a pulse that limits dt, shifts +-2.6 / 4.5 / 1.7: estimated (dt, dkmax, epsrel) identical "
         "(1e-12), reported times minus tau, logged sample times minus tau, states 1e-5 (guessed "
